@@ -47,7 +47,7 @@ type Bus struct {
 	pending   int64
 	closed    chan struct{}
 	serial    wire.EnvelopeSerializer // optional: every envelope goes through this serializer
-	sendFault func(*wire.Envelope) error
+	sendFault func(context.Context, *wire.Envelope) error
 	drop      func(*wire.Envelope) bool
 	wg        sync.WaitGroup
 	delivered int64
@@ -68,8 +68,14 @@ func (b *Bus) SetSerializer(ser wire.EnvelopeSerializer) { b.serial = ser }
 func (b *Bus) SetDrop(f func(*wire.Envelope) bool) { b.mu.Lock(); b.drop = f; b.mu.Unlock() }
 
 // SetSendFault installs a function that makes Publish fail for the selected envelopes (a peer
-// that closed its connection): nothing is delivered and the sender gets the error.
-func (b *Bus) SetSendFault(f func(*wire.Envelope) error) { b.mu.Lock(); b.sendFault = f; b.mu.Unlock() }
+// that closed its connection): nothing is delivered and the sender gets the error. The function
+// may also block until the sender's context ends (a recipient that cannot be reached: real buses
+// return from Publish only when the message was taken or the context is done).
+func (b *Bus) SetSendFault(f func(context.Context, *wire.Envelope) error) {
+	b.mu.Lock()
+	b.sendFault = f
+	b.mu.Unlock()
+}
 
 // AddTap registers an observer of delivered envelopes.
 func (b *Bus) AddTap(t Tap) { b.mu.Lock(); b.taps = append(b.taps, t); b.mu.Unlock() }
@@ -140,7 +146,7 @@ func (b *Bus) Publish(ctx context.Context, e *wire.Envelope) error {
 	fault := b.sendFault
 	b.mu.Unlock()
 	if fault != nil {
-		if err := fault(e); err != nil {
+		if err := fault(ctx, e); err != nil {
 			return err // the recipient is unreachable: nothing is delivered and the sender is told
 		}
 	}
